@@ -15,7 +15,7 @@ TTL_CAT = [0, 1, 2, 4, 5, 6, 29, 30, 31, 59, 60, 300, 21599, 21600, 21601, 86400
 # to 0.29 s (a cap below 1 s)
 MAXTTL_CAT = [0, 0, 0, -5, 1, 2, 10, 30, 3600, 21600, 86400, 2147483648, U32, U32 + 1, 9223372036, 9223372037,
               18446744074]
-RR_TYPES = [1, 28, 16, 65280]
+RR_TYPES = [1, 28, 16, 65280, 6, 6]      # 6 = SOA: its MINIMUM field is NOT a TTL (seed C08-S cached NODATA answers for MINIMUM)
 
 
 def rdata_for(typ, rng):
@@ -26,6 +26,9 @@ def rdata_for(typ, rng):
     if typ == 16:
         s = bytes(rng.randrange(97, 123) for _ in range(rng.randrange(0, 12)))
         return bytes([len(s)]) + s
+    if typ == 6:
+        return b"\x02ns\x00" + b"\x04root\x00" + struct.pack(">IIIII", rng.randrange(1 << 32), 7200, 900, 1209600,
+                                                             rng.choice([0, 1, 60, 3600, 86400, (1 << 32) - 1]))
     return bytes(rng.randrange(256) for _ in range(rng.randrange(0, 9)))
 
 
